@@ -161,7 +161,8 @@ def check_hashdata(rep, prog, rid, only_types=None):
         bind = {'self.type': ec, 'self._signature.sigtype': ec, 'self.embedded': Const(False)}
         bind.update(binds)
         sc = Scenario(name=name, bind=bind, args={'subject': subj}, inline=inline, max_depth=3,
-                      axioms={'(len(subject._parent.hashdata) > 0)': True, '(len(subject.hashdata) > 0)': True,
+                      axioms={'subject._parent.hashdata': True, 'subject.hashdata': True,   # a key's hashed octets are never empty
+                              '(len(subject._parent.hashdata) > 0)': True, '(len(subject.hashdata) > 0)': True,
                               '(0 in list(self._signature.signature))': False})
         I = Interp(prog, sc)
         outs = I.run(fi)
